@@ -4,9 +4,11 @@
 Direction A: behaviours of the TLC model (edge cover of small state graphs + simulation of the larger
 ones) are projected onto *schedules* - what the environment does at which loop-iteration boundary:
 start a caller (wait_for_*_message / create_*_response_future + timeout / SoulSeekClient.execute with
-a real command), write a batch of frames to the server / a peer connection (optionally with one frame
+a real command / TransferManager.request_place_in_queue), each asking for a timeout below or above the
+library's built-in 10 s (or none: the documented default), write a batch of frames to the server / a peer connection (optionally with one frame
 whose handling suspends in a slow application listener of MessageReceivedEvent), release that listener,
-cancel a caller's task, let a caller's timeout expire - also while a message is being handled.  Every schedule is executed on a real SoulSeekClient (real Network,
+cancel a caller's task (also while it is still sending), make its send fail, move the clock to just before
+and past the deadline a caller asked for - also while a message is being handled.  Every schedule is executed on a real SoulSeekClient (real Network,
 connections, reader loops, managers) on harness.simnet in harness.vloop virtual time.  The driver is a
 zero-delay timer, i.e. the last handle of every loop iteration, which is exactly the model's "D".
 
@@ -66,7 +68,7 @@ def _families():
     ]
     P = [
         dict(name='PeerPlaceInQueueReply', cls=M.PeerPlaceInQueueReply.Request, f=('filename', 'place'),
-             kinds=('str', 'int'),
+             kinds=('str', 'int'), place=True,     # the reply of TransferManager.request_place_in_queue
              make=lambda a, b, uid: M.PeerPlaceInQueueReply.Request(filename=a, place=b), cmd=None),
         dict(name='PeerTransferReply', cls=M.PeerTransferReply.Request, f=('ticket', 'filesize'), kinds=('int', 'int'),
              make=lambda a, b, uid: M.PeerTransferReply.Request(ticket=a, allowed=True, filesize=b), cmd=None),
@@ -125,6 +127,7 @@ class Concretisation:
             mine = [r for r in regs if (_kind_of(r[2]['conn']), r[2]['cls']) == key]
             need_f2 = any(r[2]['m2'] != 'any' for r in mine)
             late = any(r[2].get('late') for r in mine)
+            place = any(self.api[r[1]] == 'place' for r in mine)
             execs = {(_shape(r[2]['m1']), _shape(r[2]['m2'])) for r in mine
                      if self.api[r[1]] == 'exec' and not r[2].get('late')}
             cands = []
@@ -134,6 +137,8 @@ class Concretisation:
                 if need_f2 and f['f'][1] is None:
                     continue
                 if late and not (f['cmd'] and f['cmd'][0] == 'late'):
+                    continue
+                if place and not f.get('place'):
                     continue
                 score = 0
                 if f['cmd'] and (f['cmd'][0], f['cmd'][1]) in execs:
@@ -159,24 +164,31 @@ class Concretisation:
                 shape = ('late' if spec.get('late') else _shape(spec['m1']), _shape(spec['m2']))
                 if not (f['cmd'] and (f['cmd'][0], f['cmd'][1]) == shape):
                     self.api[c] = 'fut'
+            if self.api[c] == 'place' and (_shape(spec['m1']), _shape(spec['m2'])) != ('lit', 'any'):
+                self.api[c] = 'fut'
 
     def _values(self, kind, idx):
+        """Real values for the abstract field values 1 and 2.  Often one of the two is the "empty" value of its
+        type ('' / 0 / [] ...): an expected value is a value like any other."""
         r = self.rng
         if kind is None:
             return {1: None, 2: None}
-        if kind == 'str':
-            a = r.choice(['alice', 'Bob', 'música', 'x y', 'room#1', 'dir\\sub', 'ü', 'q' * 40])
-            b = a + r.choice(['2', '_', ' ', 'é'])
-            return {1: a, 2: b}
-        if kind == 'strlist':
-            a = [r.choice(['rock', 'jazz', 'ambient'])]
-            return {1: a, 2: a + ['more']}
-        if kind == 'status':
-            return r.choice([{1: 1, 2: 2}, {1: 2, 2: 0}, {1: 0, 2: 1}])
         if kind == 'ticket':
             return {1: None, 2: None}       # bound to the command's own ticket at run time
-        a = r.randrange(0, 2 ** 31 - 2)
-        return {1: a, 2: a + 1 + r.randrange(0, 5)}
+        if kind == 'str':
+            a = r.choice(['alice', 'Bob', 'música', 'x y', 'room#1', 'dir\\sub', 'ü', 'q' * 40])
+            vals, empty = {1: a, 2: a + r.choice(['2', '_', ' ', 'é'])}, ''
+        elif kind == 'strlist':
+            a = [r.choice(['rock', 'jazz', 'ambient'])]
+            vals, empty = {1: a, 2: a + ['more']}, []
+        elif kind == 'status':
+            vals, empty = r.choice([{1: 1, 2: 2}, {1: 2, 2: 1}]), 0
+        else:
+            a = r.randrange(1, 2 ** 31 - 8)
+            vals, empty = {1: a, 2: a + 1 + r.randrange(0, 5)}, 0
+        if r.random() < 0.4:
+            vals[r.choice([1, 2])] = empty
+        return vals
 
     def fam(self, conn, cls):
         return self.family[(_kind_of(conn), cls)]
@@ -205,13 +217,11 @@ class _ErrLog(logging.Handler):
         self.sink = sink
 
     def emit(self, record):
-        try:
-            text = str(record.msg)
-        except Exception:
-            text = ''
-        if 'error during callback' in text:
-            exc = record.exc_info[1] if record.exc_info else None
-            self.sink(type(exc).__name__ if exc is not None else 'none')
+        # an exception logged by the connection layer: the reader swallowed what handling a message raised
+        # (DataConnection logs it and goes on); recognised by the exception, not by the text
+        exc = record.exc_info[1] if record.exc_info else None
+        if exc is not None:
+            self.sink(type(exc).__name__)
 
 
 class Execution:
@@ -226,6 +236,13 @@ class Execution:
         self.tasks: dict[int, asyncio.Task] = {}
         self.deadline: dict[int, float] = {}
         self.peer_frames: dict[str, list] = {}
+        self.req: dict[int, dict] = {}           # per caller: when it called, the timeout it asked for
+        self.told: dict[int, set] = {}           # per caller: "due" / "maydue" already in the trace
+        self.sent_logged: set[int] = set()
+        self.place_path: dict[int, str] = {}
+        self.gave_up: set[int] = set()
+        self.probed: set[int] = set()
+        self.hdl_done: set[int] = set()
         self.slowq: dict[str, list] = {}
         self.gates: dict[str, asyncio.Future] = {}
         self.callinfo: dict[int, tuple] = {}
@@ -271,8 +288,23 @@ class Execution:
         net = SimNet(loop).install()
         try:
             self.server = await ScriptedServer(net).start()
+            from aioslsk.protocol import messages as M
+            from aioslsk.protocol.primitives import UserStats
+            from aioslsk.events import PeerInitializedEvent
+            # like the real server: the client's own AddUser (tracking itself after login) is answered, so that
+            # the registry of expected responses holds nothing of the library's own when the schedule starts
+            self.server.handlers[M.AddUser.Request] = lambda srv, sess, msg: [M.AddUser.Response(
+                msg.username, exists=True, status=2, user_stats=UserStats(0, 0, 0, 0), country_code='NL')]
             settings = _settings(self.tmpdir)
             self.client = client = make_client(settings)
+            # the virtual clock is moved across requested timeouts of up to a minute: the connections' own read
+            # timeouts (not this property's subject) are switched off
+            client.network.server_connection.read_timeout = 0
+
+            def no_read_timeout(event):
+                event.connection.read_timeout = 0
+            self._no_read_timeout = no_read_timeout
+            client.events.register(PeerInitializedEvent, no_read_timeout)
             await client.start()
             await client.login()
             await vloop.settle(loop)
@@ -315,6 +347,7 @@ class Execution:
                         await gate
                     finally:
                         self.gates.pop(ab['conn'], None)
+                self.hdl_done.add(j)
                 self.ev(ev='hdl', j=j)
             self._listener = on_message      # the bus holds listeners weakly
             client.events.register(MessageReceivedEvent, on_message, priority=1000)
@@ -346,9 +379,10 @@ class Execution:
             if frame is None:
                 return
             try:
-                self.peer_frames[name].append(PeerMessage.deserialize_request(frame))
+                msg = PeerMessage.deserialize_request(frame)
             except Exception:
-                self.peer_frames[name].append(frame)
+                msg = frame
+            self.peer_frames[name].append(msg)
 
     # -- abstraction of what the client handled ----------------------------------------
     def _abstract_message(self, message, conn):
@@ -396,9 +430,16 @@ class Execution:
         if self.ticks > 4000:
             raise MachineryFailure('driver did not finish')
         quiescent = len(loop._ready) == 0
-        if quiescent and not (self.events and self.events[-1]['ev'] == 'q'):
-            futs = list(self.network._expected_response_futures)
-            self.ev(ev='q', n=len(futs), ndone=sum(1 for f in futs if f.done()))
+        if quiescent:
+            # a negotiation that is still going on when the loop has quiesced: its send is over, its request made
+            news = sorted(c for c, (conn, api) in self.callinfo.items()
+                          if api == 'place' and c not in self.sent_logged and not self.tasks[c].done())
+            for c in news:
+                self.sent_logged.add(c)
+                self.ev(ev='sent', c=c)
+            if news or not (self.events and self.events[-1]['ev'] == 'q'):
+                futs = list(self.network._expected_response_futures)
+                self.ev(ev='q', n=len(futs), ndone=sum(1 for f in futs if f.done()))
         steps = self.schedule['steps']
         if self.step_i < len(steps):
             step = steps[self.step_i]
@@ -414,17 +455,22 @@ class Execution:
             for g in list(self.gates.values()):      # the end: every suspended listener is let go
                 if not g.done():
                     g.set_result(None)
-        elif not self.flushed:
-            # the end: the clock passes every deadline the callers were given; whoever still waits is due
-            self.flushed = True
-            pending = [c for c, t in sorted(self.tasks.items()) if not t.done()]
-            whens = [w for w in ([self._timer_of(c) for c in pending] + [self.deadline.get(c) for c in pending])
-                     if w is not None]
-            if whens:
-                self._advance_clock(max(whens) + 0.25, also=pending)
         else:
-            self.finished.set_result(None)
-            return
+            # the end: whoever still waits is taken to its deadline, one after the other: first to just
+            # before it (nothing may happen), then past it (the caller gets its timeout)
+            pending = [(self._target(c), c) for c, t in sorted(self.tasks.items())
+                       if not t.done() and c not in self.gave_up and c in self.req]
+            pending = sorted((w[1], w[0], c) for w, c in pending if w is not None)
+            if not pending:
+                self.finished.set_result(None)
+                return
+            past, before, c = pending[0]
+            if c not in self.probed and before > loop._vtime:
+                self.probed.add(c)
+                self._advance_clock(before)
+            else:
+                self.gave_up.add(c)                  # (if it is still there afterwards, that is for TLC to judge)
+                self._advance_clock(max(past, loop._vtime), force=[c])
         loop.call_at(loop.time(), self._tick)
 
     def _timer_of(self, c) -> Optional[float]:
@@ -439,26 +485,54 @@ class Execution:
                 return h.when()
         return None
 
-    def _advance_clock(self, to: float, also=()):
-        """Move the virtual clock; every caller whose deadline is passed thereby is told so in the trace."""
+    def _target(self, c):
+        """(just before, just past) the deadline to take caller c to at a quiescent moment: the one it asked
+        for - for execute(), whose timeout starts when its send is over (it is, at a quiescent moment): not
+        before call + timeout, not after now + timeout; for the negotiation: the library's own timeout."""
+        r = self.req[c]
+        if r['api'] in ('wait', 'fut'):
+            return r['tcall'] + r['T'] - 0.5, r['tcall'] + r['T'] + 0.25
+        if r['api'] == 'exec':
+            return r['tcall'] + r['T'] - 0.5, self.loop._vtime + r['T'] + 0.25
+        w = self._timer_of(c)
+        return None if w is None else (w - 0.5, w + 0.25)
+
+    def _advance_clock(self, to: float, force=()):
+        """Move the virtual clock.  Every caller is told in the trace what that means for the timeout IT ASKED
+        FOR: "due" when its deadline is certainly passed, "maydue" when only the earliest possible one is (the
+        timeout of execute() starts when the send is over, which is not observable)."""
+        prev = self.loop._vtime
         hit = []
-        for c, t in self.tasks.items():
-            if not t.done():
-                w = self._timer_of(c)
-                if w is not None and w <= to:
-                    hit.append((w, c))
-                elif w is None and c in also and self.deadline.get(c, to + 1) <= to:
-                    hit.append((self.deadline[c], c))
-        for _, c in sorted(hit):
-            self.ev(ev='stim', c=c, what='due')
-        self.loop._vtime = max(self.loop._vtime, to)
+        for c, t in sorted(self.tasks.items()):
+            r = self.req.get(c)
+            if t.done() or r is None:
+                continue
+            timer = self._timer_of(c)
+            if r['api'] in ('wait', 'fut'):
+                earliest = latest = r['tcall'] + r['T']
+            elif r['api'] == 'exec':
+                earliest = r['tcall'] + r['T']
+                latest = prev + r['T'] if (timer is not None or c in force) else float('inf')
+            else:                                # the negotiation: the library's own timeout
+                earliest = latest = timer if timer is not None else (prev if c in force else float('inf'))
+            told = self.told.setdefault(c, set())
+            if to >= latest and 'due' not in told:
+                told.add('due')
+                hit.append((latest, c, 'due'))
+            elif to >= earliest and not told:
+                told.add('maydue')
+                hit.append((earliest, c, 'maydue'))
+        for _, c, what in sorted(hit):
+            self.ev(ev='stim', c=c, what=what)
+        self.loop._vtime = max(prev, to)
 
     def _stimulus(self, stim):
         loop = self.loop
         kind = stim[0]
         if kind == 'reg':
-            _, c, spec, api, fails = stim
-            self.tasks[c] = loop.create_task(self._caller(c, spec, api, fails), name=f'caller-{c}')
+            c, spec, api, fails = stim[1:5]
+            tm = stim[5] if len(stim) > 5 else 'short'
+            self.tasks[c] = loop.create_task(self._caller(c, spec, api, fails, tm), name=f'caller-{c}')
         elif kind == 'release':
             gate = self.gates.get(stim[1])
             if gate is not None and not gate.done():
@@ -483,13 +557,18 @@ class Execution:
             if t is not None and not t.done():
                 self.ev(ev='stim', c=c, what='cancel')
                 t.cancel()
-        elif kind == 'due':
+        elif kind in ('due', 'elapse'):
             c = stim[1]
             t = self.tasks.get(c)
-            if t is not None and not t.done():
-                when = self._timer_of(c)
+            if t is not None and not t.done() and c in self.req:
+                r = self.req[c]
+                when = r['tcall'] + r['T'] if r['api'] in ('wait', 'fut') else self._timer_of(c)
                 if when is not None:
-                    self._advance_clock(when + 0.25)
+                    if kind == 'due':
+                        self._advance_clock(max(when, loop._vtime) + 0.25)
+                    elif when - 0.5 > loop._vtime:
+                        self.probed.add(c)
+                        self._advance_clock(when - 0.5)
         else:
             raise MachineryFailure(f'unknown stimulus {stim}')
 
@@ -515,15 +594,15 @@ class Execution:
                 raise MachineryFailure(f'matcher {m}')
         return fields
 
-    def _timeout_for(self, c):
-        """Deadlines are spaced one virtual second apart in the order the schedule expires them; callers
-        the schedule never expires get theirs at the final flush."""
+    def _timeout_for(self, c, tm):
+        """The timeout caller c asks for.  "short": below the library's built-in 10 s - deadlines are spaced one
+        virtual second apart in the order the schedule expires them (callers it never expires come last);
+        "long": 20 s more."""
         order = self.schedule.get('due_order', [])
         rank = order.index(c) + 1 if c in order else len(order) + 1 + c
         when = self.t0 + rank * 1.0
-        timeout = max(when - self.loop.time(), 0.5)
-        self.deadline[c] = self.loop.time() + timeout
-        return timeout
+        timeout = min(max(when - self.loop.time(), 0.5), 9.0)
+        return timeout + 20.0 if tm == 'long' else timeout
 
     def _index_of(self, message) -> int:
         for i, m in enumerate(self.handled):
@@ -531,14 +610,15 @@ class Execution:
                 return i + 1
         return 0
 
-    async def _caller(self, c, spec, api, fails):
+    async def _caller(self, c, spec, api, fails, tm='short'):
+        import inspect
         from async_timeout import timeout as atimeout
         network = self.network
         fam = self.conc.fam(spec['conn'], spec['cls'])
         kind = _kind_of(spec['conn'])
         peer = PEER_NAMES.get(spec['conn'])
         real_api = self.conc.api.get(c, api)
-        cmd = None
+        cmd = transfer = None
         if real_api == 'exec':
             shape = ('late' if spec.get('late') else _shape(spec['m1']), _shape(spec['m2']))
             a = None if shape[0] in ('any', 'late') else self._vals(spec['conn'], spec['cls'], 0)[int(spec['m1'][1])]
@@ -546,31 +626,53 @@ class Execution:
             cmd = _probe(fam['cmd'][2](a, b, peer))
         if real_api == 'wait':
             site = 'wait_for_server_message' if kind == 'S' else 'wait_for_peer_message'
+            func = network.wait_for_server_message if kind == 'S' else network.wait_for_peer_message
         elif real_api == 'fut':
             site = 'create_server_response_future' if kind == 'S' else 'create_peer_response_future'
+            func = None
+        elif real_api == 'place':
+            from aioslsk.transfer.model import Transfer, TransferDirection
+            site = 'TransferManager.request_place_in_queue'
+            func = None
+            self.place_path[c] = self._vals(spec['conn'], spec['cls'], 0)[int(spec['m1'][1])]
+            transfer = Transfer(peer, self.place_path[c], TransferDirection.DOWNLOAD)
         else:
             site = 'execute:' + type(cmd).__mro__[1].__name__
-        fields = self._fields(spec) if real_api != 'exec' else None
+            func = self.client.execute
+        fields = self._fields(spec) if real_api in ('wait', 'fut') else None
         writer = None
-        if real_api == 'exec' and fails:
+        sends = real_api in ('exec', 'place')
+        if sends and fails:
             writer = (self.server_sess.ep.link.writers[0] if kind == 'S'
                       else self.peer_eps[spec['conn']].link.writers[1])
-        fails = bool(fails and real_api == 'exec')
-        timeout = self._timeout_for(c)
+        fails = bool(fails and sends)
+        # the timeout: the value asked for, or - sometimes, for the long ones - none at all, which means the
+        # default documented in the signature of the call
+        timeout = self._timeout_for(c, tm)
+        kwargs = dict(timeout=timeout)
+        if func is not None and tm == 'long' and self.rng.random() < 0.4:
+            default = inspect.signature(func).parameters['timeout'].default
+            if isinstance(default, (int, float)) and default >= 10:
+                timeout, kwargs = float(default), {}
+        self.req[c] = dict(api=real_api, tcall=self.loop.time(), T=None if real_api == 'place' else timeout)
         self.callinfo[c] = (spec['conn'], real_api)
         if spec.get('late'):
             self.late_cls[c] = spec['cls']
         if fails:
             self.sendfail.add(c)
         self.ev(ev='call', c=c, conn=spec['conn'], cls=spec['cls'], m1=spec['m1'], m2=spec['m2'],
-                api=real_api, late=bool(spec.get('late')), site=site, fails=fails)
+                api=real_api, late=bool(spec.get('late')), tm=tm, site=site, fails=fails,
+                deferred=real_api == 'place')
+        # (for the negotiation, which returns a number, not the reply: the messages it can have been completed
+        # with are those still being handled now and the later ones)
+        open_at_call = set(range(1, len(self.handled) + 1)) - self.hdl_done
+        called_at = len(self.handled)
         try:
             if real_api == 'wait':
                 if kind == 'S':
-                    res = await network.wait_for_server_message(fam['cls'], fields=fields, timeout=timeout)
+                    msg = await network.wait_for_server_message(fam['cls'], fields=fields, **kwargs)
                 else:
-                    res = await network.wait_for_peer_message(peer, fam['cls'], fields=fields, timeout=timeout)
-                msg = res
+                    msg = await network.wait_for_peer_message(peer, fam['cls'], fields=fields, **kwargs)
             elif real_api == 'fut':
                 if kind == 'S':
                     fut = network.create_server_response_future(fam['cls'], fields=fields)
@@ -584,18 +686,30 @@ class Execution:
                     # writes fail for the whole connection: who is still sending on it is told so too
                     for c2, (conn2, api2) in self.callinfo.items():
                         t2 = self.tasks.get(c2)
-                        if (c2 != c and conn2 == spec['conn'] and api2 == 'exec' and t2 is not None
+                        if (c2 != c and conn2 == spec['conn'] and api2 in ('exec', 'place') and t2 is not None
                                 and not t2.done() and self._timer_of(c2) is None and c2 not in self.sendfail):
                             self.sendfail.add(c2)
                             self.ev(ev='stim', c=c2, what='sendfail')
-                await self.client.execute(cmd, response=True, timeout=timeout)
-                msg = cmd.seen
+                if real_api == 'exec':
+                    await self.client.execute(cmd, response=True, **kwargs)
+                    msg = cmd.seen
+                else:
+                    place = await self.client.transfers.request_place_in_queue(transfer)
+                    # the reply it was completed with: the first handled one since the call that says so
+                    msg = next((m for k, m in enumerate(self.handled, start=1)
+                                if (k > called_at or k in open_at_call) and type(m) is fam['cls']
+                                and m.filename == self.place_path[c] and m.place == place), None)
         except asyncio.CancelledError:
             if not self.closing:                     # (not the harness tearing the loop down)
                 self.ev(ev='out', c=c, kind='exc', j=0, exc='CancelledError')
             raise
         except BaseException as exc:   # an exception of the code under test is an observation
             name = type(exc).__name__
+            if real_api == 'place' and name == 'RequestPlaceFailedError':
+                # the documented error of the negotiation for both a failed send and a timeout: told apart by
+                # what it was raised from
+                inner = exc.__cause__ or exc.__context__
+                name = type(inner).__name__ if inner is not None else name
             if c in self.sendfail and name in ('ConnectionWriteError', 'PeerConnectionError', 'ConnectionResetError'):
                 name = 'SendError'
             self.ev(ev='out', c=c, kind='exc', j=0, exc=name)
@@ -622,12 +736,12 @@ def _probe(cmd):
 # TLC behaviours -> schedules
 # ---------------------------------------------------------------------------
 
-_LABEL = re.compile(r'^S?(Reg|Feed|Cancel|Due|Release|DStep|Observe|Run)(?:\((.*)\))?$', re.S)
+_LABEL = re.compile(r'^S?(Reg|Feed|Cancel|Due|Elapse|Release|DStep|Observe|Run)(?:\((.*)\))?$', re.S)
 
 
 def _spec_of(rec) -> dict:
     return dict(conn=str(rec['conn']), cls=str(rec['cls']), m1=str(rec['m1']), m2=str(rec['m2']),
-                late=bool(rec.get('late', False)))
+                late=bool(rec.get('late', False)), pl=bool(rec.get('pl', False)))
 
 
 def schedule_of(labels) -> Optional[dict]:
@@ -652,8 +766,8 @@ def schedule_of(labels) -> Optional[dict]:
             continue
         vals = tlc.parse_value('<<' + args + '>>')
         if name == 'Reg':
-            c, s, api, fails = vals
-            cur['stims'].append(('reg', int(c), _spec_of(s), str(api), bool(fails)))
+            c, s, api, fails, tm = vals
+            cur['stims'].append(('reg', int(c), _spec_of(s), str(api), bool(fails), str(tm)))
         elif name == 'Feed':
             b, sl = vals
             cur['stims'].append(('feed', [dict(conn=str(x['conn']), cls=str(x['cls']), f1=int(x['f1']), f2=int(x['f2']))
@@ -662,6 +776,8 @@ def schedule_of(labels) -> Optional[dict]:
             cur['stims'].append(('release', str(vals[0])))
         elif name == 'Cancel':
             cur['stims'].append(('cancel', int(vals[0])))
+        elif name == 'Elapse':
+            cur['stims'].append(('elapse', int(vals[0])))
         elif name == 'Due':
             cur['stims'].append(('due', int(vals[0])))
             due_order.append(int(vals[0]))
@@ -869,11 +985,15 @@ CODE_CFGS = {
     'MC_code_F2_set_result_on_done.cfg': 'DeliveryUnbroken',
     'MC_code_F3_predicate_ends_matching.cfg': 'OnlyMatching',
     'MC_code_F4_ticket_after_register.cfg': 'AllAnsweredCompleted',
+    'MC_code_F5_waiter_kept_when_send_cancelled.cfg': 'NoResidue',
 }
 
 # designs that are not the pinned code's but were tried against the check (seeded changes): same treatment
 DEV_CFGS = {
     'MC_dev_snapshot_at_arrival.cfg': 'DeliveryUnbroken',
+    'MC_dev_timeout_not_forwarded.cfg': 'TimeoutIsTimeout',
+    'MC_dev_timeout_not_forwarded_long.cfg': 'TimeoutIsTimeout',
+    'MC_dev_negotiation_registers_first.cfg': 'NoResidue',
 }
 
 ACTIONS = ['Reg', 'Feed', 'Cancel', 'Due', 'Observe', 'DStep', 'Run']
@@ -964,6 +1084,8 @@ def _tlc_jobs(chk: Check, thorough: bool):
         jobs['exec'] = pool.submit(mc, 'MC_exec2.cfg' if thorough else 'MC_exec1.cfg')
         jobs['match'] = pool.submit(cover_schedules, 'MC_match.cfg')
         jobs['slow2'] = pool.submit(cover_schedules, 'MC_slow2.cfg')
+        jobs['time2'] = pool.submit(cover_schedules, 'MC_time2.cfg')
+        jobs['place2'] = pool.submit(cover_schedules, 'MC_place2.cfg')
         if thorough:
             jobs['pair'] = pool.submit(cover_schedules, 'MC_pair.cfg', 3000)
             jobs['sim4'] = pool.submit(simulate_schedules, 'MC_sim4.cfg', 2500, 110, chk.seed + 11, 3000)
@@ -1035,19 +1157,19 @@ def _run(chk: Check, thorough: bool, tmp: str):
             sc = schedule_of([lab for lab, _ in iss.trace])
             if sc:
                 add(sc, 'cex:' + cfg[7:-4].lstrip('_'))
-    for name in ('match', 'pair', 'pair_due', 'pair_cancel', 'slow2'):
+    for name in ('match', 'pair', 'pair_due', 'pair_cancel', 'slow2', 'time2', 'place2'):
         if name not in res:
             continue
         sc_list, r, ns, ne, npaths = res[name]
         chk.add_model(f'ExpectedResponse MC_{name} (exhaustive, graph dumped)', r)
         chk.cov[f'graph_{name}'] = dict(states=ns, edges=ne, cover_paths=npaths, schedules=len(sc_list))
-        cap = None if thorough else (800 if name == 'match' else 500)
+        cap = None if thorough else (600 if name == 'match' else 350)
         pick = sc_list
         if cap is not None and len(sc_list) > cap:
             pick = sorted(chk.rng.sample(sc_list, cap), key=_key)
         chk.cov[f'graph_{name}']['replayed'] = len(pick)
         for sc in pick:
-            add(sc, 'cover:' + name, api_mix='full' if name == 'match' else 'fut')
+            add(sc, 'cover:' + name, api_mix='full' if name == 'match' else None if name == 'time2' else 'fut')
     for name in ('sim3', 'sim4'):
         if name not in res:
             continue
@@ -1079,7 +1201,11 @@ def _run(chk: Check, thorough: bool, tmp: str):
             continue
         model_api = {st[1]: st[3] for step in meta['schedule']['steps'] for st in step['stims'] if st[0] == 'reg'}
         real_api = {e['c']: e['api'] for e in trace if e['ev'] == 'call'}
-        if any(real_api.get(c) != a for c, a in model_api.items() if a == 'exec'):
+        if any(real_api.get(c) != a for c, a in model_api.items() if a in ('exec', 'place')):
+            continue
+        # (the model has no clock: with timeouts on both sides of 10 s one clock move may pass several deadlines)
+        if any(len(st) > 5 and st[5] == 'long' for step in meta['schedule']['steps'] for st in step['stims']
+               if st[0] == 'reg'):
             continue
         real = {e['c']: [e['kind'], e['j'], e['exc']] for e in trace if e['ev'] == 'out'}
         for c, m in enumerate(mo, start=1):
